@@ -6,7 +6,7 @@
     [gb] is the function computed by getBin's floating-point formula at positive scales;
     theorems that need it to be exact carry [positive_index_exact gb u maxscale] in plain
     sight (it is vacuous for maxscale <= 0 and is the tested-only clause otherwise). *)
-From Coq Require Import ZArith NArith List Lia Bool.
+From Coq Require Import ZArith NArith List Lia Bool Permutation.
 From Verif Require Import Lib.Base Lib.Dyadic C07.Model C07.Spec C07.Proofs.
 Import ListNotations.
 Open Scope Z_scope.
@@ -50,6 +50,16 @@ Theorem c07_explicit_point_ok : forall bounds v0 vs,
             hist_point_ok bounds (v0 :: vs) (hist_to_point h).
 Proof. exact explicit_point_ok. Qed.
 Print Assumptions c07_explicit_point_ok.
+
+(** EVERY configured boundary list (also unsorted or with duplicates, e.g. from a function View,
+    which is not validated): the aggregator sorts its copy; the point reports a non-decreasing
+    permutation of the configured list and satisfies every clause against it. *)
+Theorem c07_explicit_any_bounds : forall bounds v0 vs,
+  Permutation bounds (sort_bounds bounds) /\ weakly_increasing (sort_bounds bounds) = true /\
+  exists h, hist_run_cfg bounds (v0 :: vs) = Some h /\
+            hist_point_ok (sort_bounds bounds) (v0 :: vs) (hist_to_point h).
+Proof. exact explicit_any_bounds. Qed.
+Print Assumptions c07_explicit_any_bounds.
 
 (** The validation of both aggregations accepts exactly the admissible configurations
     (MaxScale < -10 is rejected: the repaired F-C07-2). *)
